@@ -1,6 +1,7 @@
 import DnsVerif.Lemmas.DecPrim
 import DnsVerif.Lemmas.SoundMsg
 import DnsVerif.Lemmas.SafeCost
+import DnsVerif.Lemmas.SafeLocalBodies
 
 /-! # C09 — record, option and parameter framing is exact
 
@@ -72,5 +73,24 @@ theorem rdata_reader_window {d d' : D} {r : RR} (hd : D.Ok d) (h : decRR d = .ok
       d.off + 11 ≤ d5.off ∧ d5.off + rdlen ≤ d.lim ∧
       decRData name ty cls ttl { buf := d.buf, off := d5.off, lim := d5.off + rdlen, cost := d5.cost + rdlen }
         = .ok (r, c) ∧ c.off = d5.off + rdlen ∧ c.lim = d5.off + rdlen ∧ d'.off = d5.off + rdlen := Safe.decRR_framing hd h
+
+/-! ## Octets of a neighbouring record are never absorbed -/
+
+/-- a record that decodes on the message cut anywhere at or after its end decodes to the SAME record,
+cursor and cost whatever octets follow the cut: nothing behind the record can influence it. (The
+hypothesis "succeeds on the cut buffer" is exactly the exclusion "other than by following a compression
+pointer": a forward pointer beyond the cut makes the cut run fail.) -/
+theorem record_local {pre : Bytes} (suf : Bytes) {off lim cost : Nat} {r : RR} {d' : D}
+    (hol : off ≤ lim) (hlim : lim ≤ pre.length) (hlen : (pre ++ suf).length < 2 ^ 63)
+    (h : decRR { buf := pre, off := off, lim := lim, cost := cost } = .ok (r, d')) :
+    decRR { buf := pre ++ suf, off := off, lim := lim, cost := cost } =
+      .ok (r, { buf := pre ++ suf, off := d'.off, lim := d'.lim, cost := d'.cost }) := Safe.decRR_local suf hol hlim hlen h
+
+/-- the same for the RDATA reader inside its window -/
+theorem rdata_local {pre : Bytes} (suf : Bytes) {name : Name} {ty cls ttl off lim cost : Nat} {r : RR} {c' : D}
+    (hol : off ≤ lim) (hlim : lim ≤ pre.length) (hlen : (pre ++ suf).length < 2 ^ 63)
+    (h : decRData name ty cls ttl { buf := pre, off := off, lim := lim, cost := cost } = .ok (r, c')) :
+    decRData name ty cls ttl { buf := pre ++ suf, off := off, lim := lim, cost := cost } =
+      .ok (r, { buf := pre ++ suf, off := c'.off, lim := c'.lim, cost := c'.cost }) := Safe.decRData_local suf hol hlim hlen h
 
 end C09
